@@ -50,6 +50,21 @@ fn main() {
             let b: u64 = args[6].parse().unwrap();
             let mut out = WorkerOut::default();
             out.stage = Some(stage);
+            if b - a > 1 {
+                // watchdog: name the case this process is sitting on instead of making the parent
+                // wait for the chunk's wall cap and bisect
+                std::thread::spawn(|| loop {
+                    std::thread::sleep(std::time::Duration::from_millis(250));
+                    let i = CURRENT_CASE.load(std::sync::atomic::Ordering::Relaxed);
+                    let since = CURRENT_SINCE_MS.load(std::sync::atomic::Ordering::Relaxed);
+                    if i != u64::MAX && now_ms().saturating_sub(since) > STUCK_SECS * 1000 {
+                        println!("WORKER-STUCK {}", i);
+                        use std::io::Write;
+                        let _ = std::io::stdout().flush();
+                        std::process::exit(3);
+                    }
+                });
+            }
             p.run(tier, stage, a, b, &mut out);
             println!("WORKER-RESULT {}", out.to_json());
         }
